@@ -26,6 +26,7 @@ type DescC19 struct {
 	HasSub  bool           `json:"has_sub"`
 	SubNum  byte           `json:"sub_num"`
 	SubExp  byte           `json:"sub_expected"`
+	Unattached bool        `json:"unattached,omitempty"`     // created with CreateSegmentationDescriptor and never attached to a signal (only when has_pts is false: it has no signal time)
 	SigKind int            `json:"signal_kind,omitempty"`    // with PTS: 0 time_signal, 1 timed program splice_insert; without: 0 splice_null, 1 immediate splice_insert, 2 cancelled splice_insert, 3 time_signal without a time (API-built only)
 	Adj     uint64         `json:"pts_adjustment,omitempty"` // the signal time is split into pts_time + pts_adjustment this way (signals with a PTS)
 	Cancel  bool           `json:"cancel,omitempty"`         // segmentation_event_cancel_indicator set through the API (a decoded cancelled descriptor carries no type)
@@ -64,6 +65,7 @@ func genDescC19(t *rapid.T, label string, like *DescC19) DescC19 {
 	}
 	d.Cancel = !d.Decoded && rapid.IntRange(0, 5).Draw(t, label+"-cancel") == 0
 	d.SigKind = rapid.IntRange(0, 3).Draw(t, label+"-signal-kind")
+	d.Unattached = !d.HasPTS && !d.Decoded && rapid.Bool().Draw(t, label+"-unattached")
 	if like != nil && rapid.IntRange(0, 1).Draw(t, label+"-like") == 0 {
 		// mostly equal to another descriptor, differing in at most one compared attribute
 		sk := d.SigKind
@@ -74,6 +76,7 @@ func genDescC19(t *rapid.T, label string, like *DescC19) DescC19 {
 		}
 		d = *like
 		d.Rest, d.Decoded, d.Adj, d.Cancel, d.SigKind = rest, dec, adj, cancel, sk
+		d.Unattached = d.Unattached && !d.HasPTS && !d.Decoded
 		nd := rapid.SampledFrom([]int{1, 1, 2}).Draw(t, label+"-ndiffer")
 		for k := 0; k < nd; k++ {
 			c19Differ(t, fmt.Sprintf("%s-differ%d", label, k), &d)
@@ -128,6 +131,21 @@ func c19Build(d *DescC19) (scte35.SegmentationDescriptor, *hx.Failure) {
 	w.Cancel = d.Cancel && !d.Decoded
 	if over := len(w.Bytes()) - 2 - 255; over > 0 && len(w.UPID) >= over {
 		w.UPID = w.UPID[:len(w.UPID)-over] // descriptor_length is one byte
+	}
+	if d.Unattached && !d.HasPTS && !d.Decoded {
+		// a descriptor straight from the creation API that no signal owns (yet)
+		o := scte35.CreateSegmentationDescriptor()
+		o.SetEventID(w.Event)
+		o.SetIsEventCanceled(w.Cancel)
+		o.SetHasProgramSegmentation(true)
+		o.SetIsDeliveryNotRestricted(true)
+		o.SetTypeID(scte35.SegDescType(w.Type))
+		o.SetSegmentNumber(w.Num)
+		o.SetSegmentsExpected(w.Expected)
+		o.SetHasSubSegments(w.HasSub)
+		o.SetSubSegmentNumber(w.SubNum)
+		o.SetSubSegmentsExpected(w.SubExpected)
+		return o, nil
 	}
 	m := ref.Splice{TableID: 0xFC, Tier: 0xFFF, Descs: []ref.SpliceDesc{w}}
 	noIns := ref.SpliceInsert{Comps: []ref.SpliceComp{}}
@@ -287,7 +305,7 @@ func descKey(d *DescC19) string {
 var propC19 = hx.Register(hx.Prop[CaseC19]{ID: "C19", Gen: genC19, Check: checkC19})
 
 func c19Rule() {
-	hx.Rec("C19").SetRule("rapid cases: three descriptors (named or arbitrary type, event id in 1..3, signal with PTS in {1000,2000,2^33-1} (time_signal or timed splice_insert) or without PTS (splice_null, immediate or cancelled splice_insert, time-less time_signal), segment number/expected in 0..2, sub-segment fields for 0x34/0x36), the second and third derived from the first with one or two compared attributes (incl. the type: start/end partner or any named type) changed half of the time, ALL other descriptor fields drawn freely or (one derived descriptor in three) identical to the first's (flags, components, duration, UPID/MID, the cancel indicator on API-built ones, the split of the signal time into pts_time + pts_adjustment), each realised either through the creation API or by decoding a reference encoding; CanClose on all 9 ordered pairs vs the hand-transcribed rule table (also with the argument wrapped in a decorator type that embeds the interface), IsIn/IsOut vs the documented lists, Equal vs its definition, symmetry, transitivity and congruence on the triple. Enumerated: all 256x256 type pairs x event-equal x PTS-equal x (segment number = expected) x incoming has sub-segments (65536 x 16), IsIn/IsOut for all 256 types, and all ordered pairs of a 720-descriptor family for the equality laws. Non-trivial: a pair with a table entry, or an equal pair.",
+	hx.Rec("C19").SetRule("rapid cases: three descriptors (named or arbitrary type, event id in 1..3, signal with PTS in {1000,2000,2^33-1} (time_signal or timed splice_insert) or without PTS (splice_null, immediate or cancelled splice_insert, time-less time_signal, or no signal at all: a descriptor fresh from the creation API), segment number/expected in 0..2, sub-segment fields for 0x34/0x36), the second and third derived from the first with one or two compared attributes (incl. the type: start/end partner or any named type) changed half of the time, ALL other descriptor fields drawn freely or (one derived descriptor in three) identical to the first's (flags, components, duration, UPID/MID, the cancel indicator on API-built ones, the split of the signal time into pts_time + pts_adjustment), each realised either through the creation API or by decoding a reference encoding; CanClose on all 9 ordered pairs vs the hand-transcribed rule table (also with the argument wrapped in a decorator type that embeds the interface), IsIn/IsOut vs the documented lists, Equal vs its definition, symmetry, transitivity and congruence on the triple. Enumerated: all 256x256 type pairs x event-equal x PTS-equal x (segment number = expected) x incoming has sub-segments (65536 x 16), IsIn/IsOut for all 256 types, and all ordered pairs of a 720-descriptor family for the equality laws. Non-trivial: a pair with a table entry, or an equal pair.",
 		"the rule table is a transcription of the pinned commit's documented rules (the property is defined relative to it)",
 		"the DiffPTS rule is only asserted when both signals carry a PTS")
 }
